@@ -278,7 +278,16 @@ def reachable_ps(fn, start, removed=(), init=None, parents=None):
                     if l in k and "*" not in pl["p"]:
                         k.pop(l, None)
                     continue
-                if rv["k"] == "agg" and rv.get("variant") is not None and rv.get("adt", "").find("::") > 0:
+                for kk in [x for x in k if isinstance(x, tuple) and x[0] == l]:
+                    k.pop(kk, None)
+                if rv["k"] == "agg" and rv.get("adt") == "(tuple)":
+                    # `match (a, b)`: remember what is known about the components
+                    k.pop(l, None)
+                    for idx, op in enumerate(rv["ops"]):
+                        sp = op.get("move") or op.get("copy")
+                        if sp is not None and not sp["p"] and sp["l"] in k:
+                            k[(l, str(idx))] = k[sp["l"]]
+                elif rv["k"] == "agg" and rv.get("variant") is not None and rv.get("adt", "").find("::") > 0:
                     k[l] = rv["variant"]
                 elif rv["k"] == "use":
                     src = rv["ops"][0].get("move") or rv["ops"][0].get("copy")
@@ -334,6 +343,8 @@ def reachable_ps(fn, start, removed=(), init=None, parents=None):
                 base = src["l"]
             elif src["p"] == ["*"] and len(refs.get(src["l"], ())) == 1:
                 base = next(iter(refs[src["l"]]))
+            if base is None and len(src["p"]) == 1 and isinstance(src["p"][0], dict) and "f" in src["p"][0] and (src["l"], src["p"][0]["f"]) in k:
+                base = (src["l"], src["p"][0]["f"])
             if base is not None and base in k:
                 v = k[base]
                 tgt = None
